@@ -79,7 +79,10 @@ def case_unnamed_snapshot_arity():
 
 
 def _bad_errors(deco, **kw):
-    for bad in (int, 42, "text", object()):
+    class CallableObject:
+        def __call__(self):
+            return ValueError("x")
+    for bad in (int, 42, "text", object(), CallableObject(), functools.partial(ValueError, "x"), len):
         r = expect_raises(ValueError, lambda: deco(lambda: True, error=bad, **kw))
         if r:
             return "%s(error=%r): %s" % (deco.__name__, bad, r)
@@ -150,6 +153,16 @@ def case_reserved_parameter_names():
     @icontract.require(lambda x: True)
     def k(x, **kw):
         return x
+
+    # `result` and `OLD` are reserved only where postconditions exist: a precondition-only function may use the names
+    @icontract.require(lambda result: result > 0)
+    def p(result, OLD=3):
+        return result + OLD
+    try:
+        if p(1) != 4 or k(1, result=2, OLD=3) != 1:
+            return "a precondition-only function using the names result/OLD misbehaves"
+    except BaseException as e:
+        return "a precondition-only function with a parameter named result/OLD was rejected: %r" % (e,)
     return (expect_raises(TypeError, lambda: g(1)) or expect_raises(TypeError, lambda: h(1))
             or expect_raises(TypeError, lambda: k(1, _ARGS=2)) or expect_raises(TypeError, lambda: k(1, _KWARGS=2)))
 
@@ -189,6 +202,22 @@ def case_single_checker_and_metadata():
     if not inspect.iscoroutinefunction(icontract.require(lambda x: True)(af)):
         return "coroutine-ness not preserved"
     return None if g(1) == 4 else "result changed: %r" % g(1)
+
+
+def case_SLOW_follows_the_environment():
+    import os
+    import subprocess
+    prog = "import icontract, sys; sys.stdout.write(str(icontract.SLOW))"
+    for flags, dbg in (([], True), (["-O"], False), (["-OO"], False)):
+        for envval, nonempty in ((None, False), ("", False), ("1", True), ("yes", True)):
+            env = dict(os.environ)
+            env.pop("ICONTRACT_SLOW", None)
+            if envval is not None:
+                env["ICONTRACT_SLOW"] = envval
+            out = subprocess.run([sys.executable] + flags + ["-c", prog], env=env, capture_output=True, text=True).stdout.strip()
+            if out != str(dbg and nonempty):
+                return "icontract.SLOW is %s with flags %r and ICONTRACT_SLOW=%r, expected %s" % (out, flags, envval, dbg and nonempty)
+    return None
 
 
 CASES = {n[5:]: f for n, f in sorted(globals().items()) if n.startswith("case_")}
